@@ -201,11 +201,14 @@ impl FrameSpec {
                     CallKind::Sub => ("Sub", format!(r#"{{"c":{c},"id":{id}}}"#)),
                 };
                 let mut flags = String::new();
+                // one call in five spells its flag names with a JSON escape (the same member names
+                // to any JSON reader)
+                let escaped = (pad as u32 + id) % 5 == 2;
                 if oneway {
-                    flags.push_str(r#""oneway":true,"#);
+                    flags.push_str(if escaped { r#""onew\u0061y":true,"# } else { r#""oneway":true,"# });
                 }
                 if more {
-                    flags.push_str(r#""more":true,"#);
+                    flags.push_str(if escaped { r#""\u006dore":true,"# } else { r#""more":true,"# });
                 }
                 let mut body = format!(r#""method":"org.example.{name}","parameters":{params}"#);
                 // One call in seven carries an additional top-level member the service does not
